@@ -488,3 +488,41 @@ def number_texts_denote_their_value(dt):
     if lim is not None:
         H.check("C07:closed-limit-admits-its-own-value", H.And(lim.complies_to_lower(0.1), lim.complies_to_upper(0.1)))
     H.cover("done")
+
+
+# ------------------------------------------------------------------------------------------------- scales from XML
+# the two directions of a compu method are parsed by CompuInternalToPhys / CompuPhysToInternal: the limits of a scale
+# belong to the side the conversion starts from (domain), its coefficients and constants to the side it yields (range)
+from xml.etree import ElementTree  # noqa: E402
+
+from odxtools.compumethods.compuphystointernal import CompuPhysToInternal  # noqa: E402
+
+_SCALES_XML = ("<X><COMPU-SCALES><COMPU-SCALE><LOWER-LIMIT>0.5</LOWER-LIMIT><UPPER-LIMIT>7.5</UPPER-LIMIT>"
+               "<COMPU-RATIONAL-COEFFS><COMPU-NUMERATOR><V>1</V><V>2</V></COMPU-NUMERATOR></COMPU-RATIONAL-COEFFS>"
+               "</COMPU-SCALE></COMPU-SCALES></X>")
+
+
+@harness(props=["C07"], strength="E", family=lambda t, s: [{"direction": d} for d in ("internal-to-phys", "phys-to-internal")],
+         functions=[CompuInternalToPhys.compu_internal_to_phys_from_et, CompuPhysToInternal.compu_phys_to_internal_from_et,
+                    CompuScale.compuscale_from_et], covers=["parsed"], crosscheck=False)
+def scales_are_parsed_with_the_types_of_their_direction(direction):
+    """limits are values of the side a conversion starts from, coefficients of the side it yields"""
+    el = ElementTree.fromstring(_SCALES_XML)
+    dom, rng = DataType.A_FLOAT64, DataType.A_UINT32
+    try:
+        if direction == "internal-to-phys":
+            r = CompuInternalToPhys.compu_internal_to_phys_from_et(el, [], internal_type=DataType.A_FLOAT64,
+                                                                    physical_type=DataType.A_UINT32)
+        else:
+            r = CompuPhysToInternal.compu_phys_to_internal_from_et(el, [], internal_type=DataType.A_UINT32,
+                                                                    physical_type=DataType.A_FLOAT64)
+    except OdxError:
+        # (a limit 0.5 is no value of an integer type)
+        H.check("C07:limits-are-parsed-as-values-of-the-domain-type", False)
+        return
+    sc = r.compu_scales[0]
+    H.cover("parsed")
+    H.check("C07:a-scale-has-the-domain-and-range-type-of-its-direction",
+            H.And(sc.domain_type == dom, sc.range_type == rng))
+    H.check("C07:limits-are-parsed-as-values-of-the-domain-type",
+            H.And(sc.lower_limit.value == 0.5, sc.upper_limit.value == 7.5))
